@@ -28,6 +28,9 @@ namespace rkcommon {
 
       explicit OwnedArray(T *data, size_t size);
 
+      OwnedArray(const OwnedArray &other);
+      OwnedArray &operator=(const OwnedArray &other);
+
       template <size_t SIZE>
       OwnedArray &operator=(std::array<T, SIZE> &rhs);
 
@@ -49,6 +52,21 @@ namespace rkcommon {
         : dataBuf(_data, _data + _size)
     {
       AbstractArray<T>::setPtr(dataBuf.data(), dataBuf.size());
+    }
+
+    template <typename T>
+    inline OwnedArray<T>::OwnedArray(const OwnedArray &other)
+        : AbstractArray<T>(), dataBuf(other.dataBuf)
+    {
+      AbstractArray<T>::setPtr(dataBuf.data(), dataBuf.size());
+    }
+
+    template <typename T>
+    inline OwnedArray<T> &OwnedArray<T>::operator=(const OwnedArray &other)
+    {
+      dataBuf = other.dataBuf;
+      AbstractArray<T>::setPtr(dataBuf.data(), dataBuf.size());
+      return *this;
     }
 
     template <typename T>
